@@ -329,10 +329,10 @@ Section Lines.
     Qed.
 
     (** ---- the validations of parseRule ---- *)
-    Lemma first_bad_tag_In want : forall l k p, first_bad_tag want l = Some (k, p) -> exists k', In (k', Some p) l.
+    Lemma first_bad_tag_In want kd : forall l k p, first_bad_tag want kd l = Some (k, p) -> exists k', In (k', Some p) l.
     Proof.
       induction l as [|[k0 [n0|]] r IH]; intros k p H; cbn [first_bad_tag] in H; [discriminate| |].
-      - destruct (negb (is_tag (n_tag n0) want)).
+      - destruct (negb (is_tag (n_tag n0) want) || kind_mismatch n0 kd)%bool.
         + inversion H; subst. exists k. left. reflexivity.
         + destruct (IH _ _ H) as [k' X]. exists k'. right. exact X.
       - destruct (IH _ _ H) as [k' X]. exists k'. right. exact X.
@@ -356,7 +356,7 @@ Section Lines.
     Proof.
       induction l as [|[k v] r IH]; intros seen pe lr Hl H; cbn [validate_string_map_loop] in H; [discriminate|].
       destruct (Hl k v (or_introl eq_refl)) as [Hk Hv].
-      destruct (negb (is_tag (n_tag v) strTag)).
+      destruct (negb (is_tag (n_tag v) strTag) || kind_mismatch v KScalar)%bool.
       - inversion H; subst. cbn [pe_line]. exact (proj1 (fits_good off v Hv)).
       - destruct (mem_str (n_value k) seen).
         + inversion H; subst. cbn [pe_line]. exact (proj1 (fits_good off k Hk)).
@@ -426,13 +426,13 @@ Section Lines.
       - brk H. inversion H; subst. cbn [pe_line]. subst. exact (proj1 (proj2 (AFor _ _ eq_refl))).
       - brk H. inversion H; subst. cbn [pe_line]. subst. exact (proj1 (proj2 (AKeep _ _ eq_refl))).
       - brk H. inversion H; subst. cbn [pe_line]. subst. exact (proj1 (ymap_lines_ok _ (proj2 (C _ _ eq_refl)))).
-      - destruct (first_bad_tag strTag _) as [[k p]|] eqn:E; [|discriminate]. inversion H; subst. cbn [pe_line].
-        destruct (first_bad_tag_In _ _ _ _ E) as [k' X]. exact (proj1 (fits_good off p (Hsc _ _ X))).
+      - destruct (first_bad_tag strTag KScalar _) as [[k p]|] eqn:E; [|discriminate]. inversion H; subst. cbn [pe_line].
+        destruct (first_bad_tag_In _ _ _ _ _ E) as [k' X]. exact (proj1 (fits_good off p (Hsc _ _ X))).
       - destruct (first_null_text _) as [[k p]|] eqn:E; [|discriminate]. inversion H; subst. cbn [pe_line].
         destruct (first_null_text_In _ _ _ E) as [k' X].
         apply (fun Y => proj1 (fits_good off p (Hsc k' p Y))). cbn [In] in X |- *. tauto.
-      - destruct (first_bad_tag mapTag _) as [[k p]|] eqn:E; [|discriminate]. inversion H; subst. cbn [pe_line].
-        destruct (first_bad_tag_In _ _ _ _ E) as [k' X]. exact (proj1 (fits_good off p (Hmp _ _ X))).
+      - destruct (first_bad_tag mapTag KMapping _) as [[k p]|] eqn:E; [|discriminate]. inversion H; subst. cbn [pe_line].
+        destruct (first_bad_tag_In _ _ _ _ _ E) as [k' X]. exact (proj1 (fits_good off p (Hmp _ _ X))).
       - unfold validate_string_map in H. eapply vsm_ok; [|exact H].
         intros k v Hkv. destruct (s_labels s) as [[p m]|] eqn:E; [|destruct Hkv].
         exact (fits_mapping off p k v (proj1 (B _ _ eq_refl)) Hkv).
